@@ -36,6 +36,9 @@ Run ==
          files(pk) == SeqToSet(p.pkgs[pk].files)
          entries(pk) == SeqToSet(p.pkgs[pk].entrypoints)
          allOk(pk) == (\A m \in files(pk) : Slot(p, m) # "error") /\ (\A x \in entries(pk) : Slot(p, x) = "module")
+         \* a published package that nothing imports (any more), or that only non-public declarations reference, is
+         \* not analysed at all (that a cache never changes *whether* it is analysed is the cache-transparent clause)
+         notInGraph(pk) == \A m \in files(pk) : Slot(p, m) \in {"absent", "none"}
          allErr(pk) == (\A m \in files(pk) : Slot(p, m) # "module") /\ (\A x \in entries(pk) : Slot(p, x) = "error")
          \* F8: with a warm or stale cache only the placement of the diagnostics differs: no module is emitted for the
          \* package and at least one entrypoint carries diagnostics, but not every entrypoint does
@@ -47,7 +50,7 @@ Run ==
          sameOutput(m) == /\ (IsModule(p, m) <=> IsModule(b, m))
                           /\ (IsModule(p, m) => p.mods[m].text = b.mods[m].text /\ p.mods[m].map = b.mods[m].map
                                                 /\ SeqToSet(p.mods[m].deps) = SeqToSet(b.mods[m].deps))
-     IN /\ \A pk \in pkgs : Check("C12", "all-or-nothing", allOk(pk) \/ allErr(pk), "F8", f8(pk), [pkg |-> pk, slots |-> [m \in files(pk) |-> Slot(p, m)]])
+     IN /\ \A pk \in pkgs : Check("C12", "all-or-nothing", notInGraph(pk) \/ allOk(pk) \/ allErr(pk), "F8", f8(pk), [pkg |-> pk, slots |-> [m \in files(pk) |-> Slot(p, m)]])
         /\ Check("C12", "recorded-deps-equal-declared-deps", \A m \in modules : SeqToSet(p.mods[m].deps) = SeqToSet(p.mods[m].declaredDeps), "-", FALSE,
                  { m \in modules : SeqToSet(p.mods[m].deps) # SeqToSet(p.mods[m].declaredDeps) })
         /\ (IF e.mode = "none" \/ ~hasBase THEN TRUE
